@@ -12,6 +12,20 @@ use std::sync::atomic::{AtomicBool, AtomicUsize, Ordering};
 use std::time::{Duration, Instant};
 
 pub const HUGE_ALLOC_EXIT: i32 = 77;
+/// a child that abandoned a runaway helper thread finishes its case, persists its progress and
+/// exits with this code; the supervisor starts a fresh child for the remaining cases, so that a
+/// runaway thread never lives on into later cases (where a late panic, abort or allocation of
+/// that thread would be attributed to the wrong case)
+pub const RETIRE_EXIT: i32 = 78;
+static RUNAWAY: AtomicUsize = AtomicUsize::new(0);
+
+pub fn note_runaway() {
+    RUNAWAY.fetch_add(1, Ordering::SeqCst);
+}
+
+pub fn retire_requested() -> bool {
+    RUNAWAY.load(Ordering::SeqCst) > 0 && std::env::var("VERIF_CHILD").is_ok()
+}
 pub const DEFAULT_CAP: usize = 64 << 20;
 
 static CAP: AtomicUsize = AtomicUsize::new(0);
@@ -42,13 +56,28 @@ unsafe impl GlobalAlloc for Capped {
 #[inline]
 fn check(size: usize) {
     let cap = CAP.load(Ordering::Relaxed);
-    if cap != 0 && size > cap && !IN_HOOK.swap(true, Ordering::SeqCst) {
-        huge(size);
+    if cap != 0 && size > cap {
+        if !IN_HOOK.swap(true, Ordering::SeqCst) {
+            huge(size);
+        }
+        // another thread is already reporting an enormous request (its own allocations while
+        // it captures the backtrace are small and pass above): this thread must not reach the
+        // system allocator, whose failure would abort the process before the report is out
+        if !HOOK_THREAD.with(|h| h.get()) {
+            loop {
+                std::thread::sleep(Duration::from_secs(3600));
+            }
+        }
     }
+}
+
+thread_local! {
+    static HOOK_THREAD: std::cell::Cell<bool> = const { std::cell::Cell::new(false) };
 }
 
 #[cold]
 fn huge(size: usize) -> ! {
+    HOOK_THREAD.with(|h| h.set(true));
     // the cap is off while the report is produced (IN_HOOK)
     let bt = std::backtrace::Backtrace::force_capture().to_string();
     let site = first_repo_frame(&bt);
@@ -181,6 +210,7 @@ pub fn supervise(ctx: &mut Ctx, campaign: &str, watchdog: u64, max_restarts: u32
     let total = ctx.workers.max(1);
     let mut running: Vec<Child> = (0..total).map(|i| spawn(&ctx.id, ctx.tier, ctx.seed, i, total, 0, &dir, 0)).collect();
     let mut respawns = 0u32;
+    let mut retired = 0u32;
     // a child that dies is replaced by one that continues with the remaining cases of its share;
     // the budget only guards against a child that cannot make progress at all
     let max_respawns = max_restarts.max(1) * 400 * total as u32;
@@ -227,6 +257,12 @@ pub fn supervise(ctx: &mut Ctx, campaign: &str, watchdog: u64, max_restarts: u32
                         let stderr = std::fs::read_to_string(&c.stderr_path).unwrap_or_default();
                         let case: Value = std::fs::read_to_string(&c.case_log).ok().and_then(|s| serde_json::from_str(&s).ok()).unwrap_or(Value::Null);
                         let code = status.code();
+                        if code == Some(RETIRE_EXIT) {
+                            // not a failure: the child retired after a case that left a runaway thread
+                            retired += 1;
+                            next.push(spawn(&ctx.id, ctx.tier, ctx.seed, c.index, total, c.restart + 1, &dir, c.done_before + done - 1));
+                            continue;
+                        }
                         if code == Some(2) {
                             eprintln!("HARNESS: child {} reported a machinery failure:\n{}", c.index, truncate(&stderr, 2000));
                             ctx.extra.insert("child_machinery_failure".into(), Value::Bool(true));
@@ -273,6 +309,7 @@ pub fn supervise(ctx: &mut Ctx, campaign: &str, watchdog: u64, max_restarts: u32
     }
     ctx.extra.insert("isolated_children".into(), serde_json::json!(total));
     ctx.extra.insert("child_respawns".into(), serde_json::json!(respawns));
+    ctx.extra.insert("children_retired_after_runaway_thread".into(), serde_json::json!(retired));
     let _ = std::fs::remove_dir_all(&dir);
 }
 
@@ -363,5 +400,68 @@ pub fn snapshot(ctx: &Ctx) -> Partial {
         rule: ctx.rule.clone(),
         level: ctx.level.clone(),
         assumptions: ctx.assumptions.clone(),
+    }
+}
+
+/// `--replay` for the isolated properties: the saved case runs in a child process with the
+/// allocation cap enabled, so that an abort, a stack overflow or an enormous allocation request
+/// is reported as the violation it is (exit 1) instead of taking the replay down or passing
+/// unnoticed. A case that exceeds the watchdog is undecided (exit 0 with a note).
+pub fn replay_in_child(id: &str, path: &str, watchdog: u64) -> i32 {
+    let exe = std::env::current_exe().expect("current exe");
+    let dir = fresh_dir("replay-child");
+    let stderr_path = dir.join("stderr.txt");
+    let stderr = std::fs::File::create(&stderr_path).expect("stderr file");
+    let mut proc = std::process::Command::new(exe)
+        .arg(id)
+        .arg("--replay")
+        .arg(path)
+        .env("VERIF_REPLAY_CHILD", "1")
+        .env("VERIF_ALLOC_CAP", DEFAULT_CAP.to_string())
+        .stderr(stderr)
+        .spawn()
+        .expect("spawn replay child");
+    let start = Instant::now();
+    let status = loop {
+        match proc.try_wait() {
+            Ok(Some(s)) => break Some(s),
+            Ok(None) => {
+                if start.elapsed() > Duration::from_secs(watchdog.max(10)) {
+                    let _ = proc.kill();
+                    let _ = proc.wait();
+                    break None;
+                }
+                std::thread::sleep(Duration::from_millis(20));
+            }
+            Err(_) => break None,
+        }
+    };
+    let stderr = std::fs::read_to_string(&stderr_path).unwrap_or_default();
+    let base = std::env::var("VERIF_SCRATCH").unwrap_or_else(|_| "/tmp".into());
+    let _ = std::fs::remove_dir_all(std::path::Path::new(&base).join(format!("verif-{}", proc.id())));
+    cleanup_scratch();
+    use std::os::unix::process::ExitStatusExt;
+    let violation = |sig: String, detail: String| -> i32 {
+        println!("VIOLATION property={id} replay={path}");
+        println!("  signature: {sig}");
+        println!("  detail: {}", truncate(&detail, 3000));
+        1
+    };
+    match status {
+        None => {
+            println!("replay {path}: undecided (no answer within the per-case watchdog)");
+            0
+        }
+        Some(s) if s.code() == Some(0) || s.code() == Some(1) => s.code().unwrap(),
+        Some(s) if s.code() == Some(HUGE_ALLOC_EXIT) => {
+            let line = stderr.lines().find(|l| l.starts_with("HUGE_ALLOC")).unwrap_or("HUGE_ALLOC").to_string();
+            let site = line.split("site=").nth(1).unwrap_or("?").trim().to_string();
+            violation(format!("enormous allocation request in {site}"), line)
+        }
+        Some(s) if s.signal().is_some() => violation(format!("process died: signal {}", s.signal().unwrap()), tail_of(&stderr, 1500)),
+        Some(s) => {
+            eprintln!("HARNESS: replay child exited with {:?}: {}", s.code(), tail_of(&stderr, 800));
+            2
+        }
     }
 }
